@@ -59,6 +59,19 @@ def shaped_entries(kvs):
     return all(NAME_RE.match(k) and shaped(v, False) for k, v in kvs)
 
 
+def hard_numbers(rng, v, pool, top=True):
+    """replace number leaves (and some text leaves) by numbers from the pool; the shape stays the same"""
+    if isinstance(v, dict):
+        return {k: hard_numbers(rng, x, pool, False) for k, x in v.items()}
+    if isinstance(v, list):
+        return [hard_numbers(rng, x, pool, False) for x in v]
+    if isinstance(v, bool) or v is None:
+        return v
+    if isinstance(v, (int, float)) or (isinstance(v, str) and rng.random() < 0.3):
+        return rng.choice(pool) * rng.choice([1, 1, -1])
+    return v
+
+
 def xml_norm(v):
     """XML's own normalisations: numbers become text, '' and None coincide, surrounding
     whitespace is dropped (a CDATA section is its content); an element without content is None"""
@@ -268,6 +281,21 @@ class C12(Prop):
             tx("rnd", ["d", 1, [[root, v]]], self.r_opts(rng))
         for _ in range(150 if quick else 6000):
             tx("outside", self.r_outside(rng), self.r_opts(rng))
+        # ---- numbers outside the shared value type (not halves): very small / very large doubles, 17 significant
+        #      digits, integers beyond 2**53.  Oracle only: the number comes back as the text of the same number.
+        hard = [1.5e-07, 1.2345678e-05, 1e-05, 2.5e-05, 1e+16, 0.1 + 0.2, 1 / 3, 123456789.12345679, 5e-324, 1.7976931348623157e308,
+                1e-10, 0.000123456789, 12345678901234567890, -9007199254740993, 4.35]
+        for _ in range(100 if quick else 3000):
+            root = rng.choice(NAMES)
+            v = self.r_val(rng, rng.choice([1, 2, 3]))
+            if v[0] == "l":
+                v = ["d", 1, [["a", v]]]
+            ct = ["d", 1, [[root, v]]]
+            if not shaped(ct):
+                continue
+            py = plain(ct)
+            py = hard_numbers(rng, py, hard)
+            out.append({"stream": "toxml_f", "tag": "numbers", "input": {"tree": py, "opts": self.r_opts(rng)}})
         # ---- loading -------------------------------------------------------------------------
         for _ in range(250 if quick else 12000):
             k = rng.random()
@@ -357,6 +385,8 @@ class C12(Prop):
 
     def valid(self, case):
         i = case["input"]
+        if case.get("stream") == "toxml_f":
+            return False
         if case.get("stream") == "toxml":
             o = i.get("opts", {})
             t = i.get("tree")
@@ -376,8 +406,31 @@ class C12(Prop):
         except Exception:  # noqa  (ExpatError and the like)
             return ("bad", None)
 
+    def wrap_all(self, v):
+        if isinstance(v, dict):
+            return self.n0dict({k: self.wrap_all(x) for k, x in v.items()})
+        if isinstance(v, list):
+            return self.n0list([self.wrap_all(x) for x in v])
+        return v
+
     def run_impl(self, case):
         i = case["input"]
+        if case["stream"] == "toxml_f":
+            o = i["opts"]
+            s = self.wrap_all(i["tree"]).to_xml(indent=o["indent"], encoding=o["encoding"], quote=o["quote"])
+            if not isinstance(s, str):
+                raise TypeError("to_xml returned %s" % type(s).__name__)
+            ob = {"ok": ["s", s]}
+            try:
+                ET.fromstring(s.encode("utf-8"))
+                ob["wf"] = None
+            except Exception as e:  # noqa
+                ob["wf"] = "%s: %s" % (type(e).__name__, str(e)[:80])
+            try:
+                ob["back_py"] = unwrap(self.n0dict(s))
+            except Exception as e:  # noqa
+                ob["back_exc"] = "%s: %s" % (type(e).__name__, str(e)[:80])
+            return ob
         if case["stream"] == "toxml":
             o = i["opts"]
             x = self.build(i["tree"])
@@ -446,6 +499,31 @@ class C12(Prop):
                 return "n0dict(x.to_xml()) = %r, expected %r (XML normalisations applied)" % (got, want)
             if obs.get("ref") is None or plain(obs["ref"]) != got:
                 return "n0dict(text) differs from xmltodict.parse(text) for the exported text %r" % text[:200]
+            return None
+        if case["stream"] == "toxml_f":
+            if "raise" in obs:
+                return "to_xml raised %s" % obs.get("exc", obs["raise"])
+            text = obs["ok"][1]
+            if obs.get("wf"):
+                return "to_xml output is not well-formed (%s): %r" % (obs["wf"], text[:200])
+            if "back_exc" in obs:
+                return "n0dict(to_xml output) raised %s: %r" % (obs["back_exc"], text[:200])
+            want, got = xml_norm(i["tree"]), obs["back_py"]
+
+            def same_number_text(w, g):
+                # a number comes back as text of the same number (its spelling is the exporter's choice)
+                if isinstance(w, dict) and isinstance(g, dict):
+                    return w.keys() == g.keys() and all(same_number_text(w[k], g[k]) for k in w)
+                if isinstance(w, list) and isinstance(g, list):
+                    return len(w) == len(g) and all(same_number_text(a, b) for a, b in zip(w, g))
+                if isinstance(w, str) and isinstance(g, str) and w != g:
+                    try:
+                        return (int(w) == int(g)) if (w.lstrip("-").isdigit() and g.lstrip("-").isdigit()) else float(w) == float(g)
+                    except ValueError:
+                        return False
+                return w == g
+            if not same_number_text(want, got):
+                return "n0dict(x.to_xml()) = %r, expected %r (numbers as text of the same number)" % (got, want)
             return None
         if case["stream"] == "x2d":
             return None                          # a stream about the Spec's model of xmltodict, not about the repository
